@@ -30,10 +30,18 @@ Inductive input :=
        returns [code]: form_post -> AuthResponseFormPost, else AuthResponseURL
        + http.Redirect (absolute redirect URIs only) *)
 | IErr (redirect : string) (parsed : option purl) (rtype rmode : string)
-       (etype desc state session_state : string) (redirect_disabled : bool).
-    (* AuthRequestError(recorder, req, authReq, err, authorizer); rmode = "" when
-       the request has no GetResponseMode; etype/desc = what DefaultToServerError
-       yields for err *)
+       (etype desc state session_state : string) (redirect_disabled : bool)
+| IAfter (prev : input) (accepted : N) (i : input).
+    (* a sequence on one process: first the call [prev] answered into an
+       http.ResponseWriter that takes only [accepted] bytes of body and then
+       fails (broken connection / short write), its outcome discarded; then
+       the call [i] answered normally - [i]'s answer is what is observed *)
+    (* AuthRequestError(recorder, req, authReq, err, authorizer) and its copy
+       TryErrorRedirect(ctx, authReq, err, encoder, logger) + http.Redirect, called
+       directly or by GET /authorize on the Provider router / the LegacyServer
+       router with a storage whose CreateAuthRequest fails with err after all
+       validation passed; rmode = "" when the request has no GetResponseMode;
+       etype/desc = what DefaultToServerError yields for err *)
 
 Inductive observed :=
 | OUrl (loc base : string) (q f pre : pairs)
@@ -100,8 +108,16 @@ Definition form_obs (redirect : string) (params : pairs) : observed :=
         (attr_inert (form_action redirect)
          && forallb (fun n => attr_inert (attr_escape (value_of n params))) (present_fields params)).
 
-Definition model (i : input) : observed :=
+(* every answer is a function of its own request only *)
+Fixpoint strip (i : input) : input :=
   match i with
+  | IAfter _ _ i' => strip i'
+  | _ => i
+  end.
+
+Definition model_base (i : input) : observed :=
+  match i with
+  | IAfter _ _ _ => OFail
   | IUrl _ None _ _ _ => OFail
   | IUrl _ (Some u) rtype rmode r =>
       url_obs u (auth_response_url u rtype rmode (encode_response r))
@@ -124,6 +140,8 @@ Definition model (i : input) : observed :=
                                (encode_response (RError etype desc st ss))))
            end
   end.
+
+Definition model (i : input) : observed := model_base (strip i).
 
 (* ---------------- property ---------------- *)
 (* The parameters the property names. *)
@@ -205,8 +223,9 @@ Definition form_spec (redirect : string) (want : pairs) (o : observed) : bool :=
   | _ => false
   end.
 
-Definition spec (i : input) (o : observed) : bool :=
+Definition spec_base (i : input) (o : observed) : bool :=
   match i with
+  | IAfter _ _ _ => false
   | IUrl _ None _ _ _ => match o with OFail => true | _ => false end
   | IUrl _ (Some u) rtype rmode r =>
       url_spec false (u_prefix u) (expected_channel rtype rmode) (produced r) o
@@ -231,6 +250,9 @@ Definition spec (i : input) (o : observed) : bool :=
       | _ => false
       end
   end.
+
+(* a failed write of an earlier answer changes nothing about what is owed *)
+Definition spec (i : input) (o : observed) : bool := spec_base (strip i) o.
 
 Definition obs_eqb (a b : observed) : bool :=
   match a, b with
@@ -257,8 +279,9 @@ Definition url_wf_redirect (u : purl) : bool :=
 
 Definition is_error (r : response) : bool := match r with RError _ _ _ _ => true | _ => false end.
 
-Definition wf (i : input) : bool :=
+Definition wf_base (i : input) : bool :=
   match i with
+  | IAfter _ _ _ => false
   | IUrl _ None _ _ _ => true
   | IUrl _ (Some u) _ _ _ => url_wf u
   | IForm redirect r => is_safe_url redirect && url_clean redirect && negb (is_error r)
@@ -269,8 +292,10 @@ Definition wf (i : input) : bool :=
   | IErr _ (Some u) _ _ _ _ _ _ _ => url_wf_redirect u
   end.
 
+Definition wf (i : input) : bool := wf_base (strip i).
+
 (* decision-path class of the model run; 0 = nothing delivered *)
-Definition path (i : input) (o : observed) : nat :=
+Definition path_base (i : input) (o : observed) : nat :=
   match i, o with
   | _, OFail => 0
   | _, OPanic => 0
@@ -289,6 +314,8 @@ Definition path (i : input) (o : observed) : nat :=
       if is_safe_url redirect then (if url_clean redirect then 16 else 17) else 18
   | _, _ => 19
   end.
+
+Definition path (i : input) (o : observed) : nat := path_base (strip i) o.
 
 Definition case_mismatches := run_mismatches model obs_eqb.
 Definition case_violations := run_violations spec.
